@@ -24,7 +24,7 @@ package output
 //@   init nw := 0
 //@   nosite io.WriteString                                   -- nothing but the single Copy below reaches the stream   [C17]
 //@   nosite (Writer).Write                                                                                             [C17]
-//@   site io.Copy#1 requires arg0 == gw.writer                                                                         [C17]
+//@   site io.Copy#0 requires arg0 == gw.writer                                                                         [C17]
 //@   site io.Copy#1 ghost nw := nw + 1
 //@   ensures nw <= 1                                         -- begin line, bytes and end line go out in ONE write     [C17]
 
@@ -41,11 +41,11 @@ package output
 //@   ensures as(result.0, type(*prefixWriter)) == captured(result.2, "(*Prefixed).WrapWriter$1", "pw")                 [C17]
 //@   ensures as(result.0, type(*prefixWriter)).writer == stdOut && as(result.0, type(*prefixWriter)).prefixed == p     [C17]
 //@ func (*Prefixed).WrapWriter$1
-//@   site (*prefixWriter).close#1 requires arg0 == pw                                                                  [C17]
+//@   site (*prefixWriter).close#0 requires arg0 == pw                                                                  [C17]
 // Prefixed: every piece of one output line is written while holding the mutex shared by all commands.
 //@ func (*prefixWriter).writeLine
 //@   site fmt.Fprint#1 requires held(pw.prefixed.mutex)                                                                [C17,C18]
-//@   site (*Logger).FOutf#1 requires held(pw.prefixed.mutex) && arg1 == pw.writer                                      [C17,C18]
+//@   site (*Logger).FOutf#0 requires held(pw.prefixed.mutex) && arg1 == pw.writer                                      [C17,C18]
 //@   site fmt.Fprint#2 requires held(pw.prefixed.mutex)                                                                [C17,C18]
 //@   site fmt.Fprint#3 requires held(pw.prefixed.mutex)                                                                [C17,C18]
 //@ guarded_by Prefixed.seen Prefixed.mutex                                                                          [C18]
@@ -55,7 +55,7 @@ package output
 // (which takes complete lines out, once each); Write itself never emits a line.
 //@ func (*prefixWriter).Write
 //@   nosite (*prefixWriter).writeLine                                                                                  [C17]
-//@   site (*Buffer).Write#1 requires arg1 == p                                                                         [C17]
-//@   site (*prefixWriter).writeOutputLines#1 requires arg0 == pw && !arg1                                              [C17]
+//@   site (*Buffer).Write#0 requires arg1 == p                                                                         [C17]
+//@   site (*prefixWriter).writeOutputLines#0 requires arg0 == pw && !arg1                                              [C17]
 //@ func (*prefixWriter).close
-//@   site (*prefixWriter).writeOutputLines#1 requires arg0 == pw && arg1                                               [C17]
+//@   site (*prefixWriter).writeOutputLines#0 requires arg0 == pw && arg1                                               [C17]
